@@ -792,3 +792,318 @@ def consume_rule(prj: Project) -> ConsumeRule:
                             recv_ok = recv_ok or returns_deepcopy(fi)
     r.copies_predicates = recv_ok
     return r
+
+
+# ----------------------------------------------------------------------------
+# symbolic fragments of Operator.apply (C13-R1)
+# ----------------------------------------------------------------------------
+
+class Frag:
+    """Symbolic heap of one apply() run: nodes with epsilon and labelled edges."""
+
+    def __init__(self):
+        self.n = 0
+        self.eps: dict[int, list[int]] = {}
+        self.lab: dict[int, list[tuple[str, int]]] = {}
+        self.alias: dict[int, int] = {}
+        self.result = None   # (start, accepting) pushed
+        self.labels: list[str] = []
+
+    def node(self) -> int:
+        self.n += 1
+        self.eps[self.n] = []
+        self.lab[self.n] = []
+        return self.n
+
+    def rep(self, x: int) -> int:
+        while x in self.alias:
+            x = self.alias[x]
+        return x
+
+    def subnfa(self, label: str) -> tuple[int, int]:
+        s, a = self.node(), self.node()
+        self.lab[s].append((label, a))
+        self.labels.append(label)
+        return s, a
+
+    # language as a DFA over labels: (start, trans{(state,label)->state}, accepting)
+    def dfa(self):
+        if self.result is None:
+            raise AnalysisError("apply() pushed no NFA")
+        s0, acc = self.rep(self.result[0]), self.rep(self.result[1])
+
+        def closure(xs):
+            seen, todo = set(), [self.rep(x) for x in xs]
+            while todo:
+                x = todo.pop()
+                if x in seen:
+                    continue
+                seen.add(x)
+                todo.extend(self.rep(y) for y in self.eps[x])
+            return frozenset(seen)
+        start = closure([s0])
+        trans, accs, todo, seen = {}, set(), [start], {start}
+        while todo:
+            T = todo.pop()
+            if acc in T:
+                accs.add(T)
+            for l in sorted(set(self.labels)):
+                tg = closure([t for q in T for (ll, t) in self.lab[q] if ll == l])
+                if tg:
+                    trans[(T, l)] = tg
+                    if tg not in seen:
+                        seen.add(tg)
+                        todo.append(tg)
+        return start, trans, accs
+
+
+def regex_dfa(rx, labels):
+    """rx: nested tuples ('sym',l) ('cat',a,b) ('alt',a,b) ('opt',a) ('star',a) ('plus',a)."""
+    f = Frag()
+
+    def build(r):
+        k = r[0]
+        if k == "sym":
+            return f.subnfa(r[1])
+        if k == "cat":
+            s1, a1 = build(r[1])
+            s2, a2 = build(r[2])
+            f.eps[a1].append(s2)
+            return s1, a2
+        s, a = f.node(), f.node()
+        if k == "alt":
+            for sub in r[1:]:
+                ss, aa = build(sub)
+                f.eps[s].append(ss)
+                f.eps[aa].append(a)
+            return s, a
+        ss, aa = build(r[1])
+        f.eps[s].append(ss)
+        f.eps[aa].append(a)
+        if k in ("opt", "star"):
+            f.eps[s].append(a)
+        if k in ("star", "plus"):
+            f.eps[aa].append(ss)
+        return s, a
+    f.result = build(rx)
+    f.labels = list(labels)
+    return f.dfa()
+
+
+def dfa_difference(d1, d2, labels) -> Optional[list[str]]:
+    """A word accepted by exactly one of the two DFAs, or None if equivalent."""
+    (s1, t1, a1), (s2, t2, a2) = d1, d2
+    seen = {(s1, s2): None}
+    todo = [(s1, s2)]
+    while todo:
+        cur = todo.pop(0)
+        x, y = cur
+        if (x in a1) != (y in a2):
+            w = []
+            c = cur
+            while seen[c] is not None:
+                c, l = seen[c]
+                w.append(l)
+            return list(reversed(w))
+        for l in sorted(set(labels)):
+            nx = t1.get((x, l), frozenset()) if x else frozenset()
+            ny = t2.get((y, l), frozenset()) if y else frozenset()
+            if not nx and not ny:
+                continue
+            nxt = (nx, ny)
+            if nxt not in seen:
+                seen[nxt] = (cur, l)
+                todo.append(nxt)
+    return None
+
+
+class ApplyInterp:
+    """Abstract run of an Operator.apply(self, stack) body on a symbolic heap."""
+
+    def __init__(self, prj: Project, fi: FuncInfo, branch_choice: dict, stack_depth: int):
+        self.prj, self.fi = prj, fi
+        self.frag = Frag()
+        self.branch_choice = branch_choice   # id(If node) -> bool for data-dependent tests
+        self.stack: list[tuple[int, int]] = []
+        self.popped = 0
+        for i in range(stack_depth):
+            self.stack.append(self.frag.subnfa(f"S{i}"))   # S0 pushed first
+        self.env: dict[str, object] = {}
+        self.undecided: list[ast.If] = []
+        self.returned = False
+
+    def run(self):
+        self.block(self.fi.node.body)
+        if self.frag.result is None and self.stack:
+            self.frag.result = self.stack[-1]
+        elif self.stack:
+            self.frag.result = self.stack[-1]
+        return self.frag
+
+    def block(self, stmts):
+        for st in stmts:
+            if self.returned:
+                return
+            self.stmt(st)
+
+    def stmt(self, st):
+        fi = self.fi
+        if isinstance(st, ast.Return):
+            self.returned = True
+        elif isinstance(st, ast.Expr):
+            if isinstance(st.value, ast.Constant):
+                return
+            self.ev(st.value)
+        elif isinstance(st, ast.Assign) and len(st.targets) == 1:
+            t = st.targets[0]
+            if isinstance(t, ast.Name):
+                self.env[t.id] = self.ev(st.value)
+            elif isinstance(t, ast.Attribute) and t.attr in ("epsilon_transitions", "transition"):
+                node = self.ev(t.value)
+                if not isinstance(node, int):
+                    raise Unsupported(f"{fi.site(st)}: store on non-state")
+                node = self.frag.rep(node)
+                val = self.ev(st.value)
+                if not isinstance(val, list):
+                    raise Unsupported(f"{fi.site(st)}: {t.attr} assigned a non-list")
+                if t.attr == "epsilon_transitions":
+                    self.frag.eps[node] = list(val)
+                else:
+                    self.frag.lab[node] = list(val)
+            else:
+                raise Unsupported(f"{fi.site(st)}: assignment target {unparse(t)}")
+        elif isinstance(st, ast.AugAssign) and isinstance(st.target, ast.Attribute) and st.target.attr in ("epsilon_transitions", "transition"):
+            node = self.frag.rep(self.ev(st.target.value))
+            val = self.ev(st.value)
+            (self.frag.eps if st.target.attr == "epsilon_transitions" else self.frag.lab)[node].extend(val)
+        elif isinstance(st, ast.If):
+            t = st.test
+            # len(stack) < 2 style tests are decided by the scenario
+            dec = self.stack_test(t)
+            if dec is None:
+                if id(st) in self.branch_choice:
+                    dec = self.branch_choice[id(st)]
+                else:
+                    self.undecided.append(st)
+                    dec = True
+            self.block(st.body if dec else st.orelse)
+        elif isinstance(st, ast.Pass):
+            return
+        else:
+            raise Unsupported(f"{fi.site(st)}: statement {type(st).__name__} in apply()")
+
+    def stack_test(self, t):
+        if isinstance(t, ast.Compare) and len(t.ops) == 1 and isinstance(t.left, ast.Call) \
+                and isinstance(t.left.func, ast.Name) and t.left.func.id == "len" \
+                and isinstance(t.left.args[0], ast.Name) and t.left.args[0].id == "stack":
+            c = const_int(t.comparators[0])
+            if c is not None:
+                n = len(self.stack)
+                return {ast.Lt: n < c, ast.LtE: n <= c, ast.Gt: n > c, ast.GtE: n >= c, ast.Eq: n == c,
+                        ast.NotEq: n != c}[type(t.ops[0])]
+        return None
+
+    def ev(self, n):
+        fi = self.fi
+        if isinstance(n, ast.Name):
+            if n.id in self.env:
+                return self.env[n.id]
+            if n.id == "stack":
+                return "STACK"
+            raise Unsupported(f"{fi.site(n)}: free name {n.id}")
+        if isinstance(n, ast.Attribute):
+            if isinstance(n.value, ast.Name) and n.value.id == "self":
+                return ("field", n.attr)
+            base = self.ev(n.value)
+            if isinstance(base, tuple) and base[0] == "nfa":
+                if n.attr == "start":
+                    return base[1]
+                if n.attr == "accepting":
+                    return base[2]
+            if isinstance(base, int) and n.attr in ("epsilon_transitions", "transition"):
+                return ("listref", n.attr, self.frag.rep(base))
+            raise Unsupported(f"{fi.site(n)}: attribute {unparse(n)}")
+        if isinstance(n, ast.List):
+            return [self.ev(e) for e in n.elts]
+        if isinstance(n, ast.Tuple):
+            return tuple(self.ev(e) for e in n.elts)
+        if isinstance(n, ast.Call):
+            f = n.func
+            name = attr_chain(f) or ""
+            if name == "State" and not n.args:
+                return self.frag.node()
+            if name == "expression_to_nfa" and len(n.args) == 1:
+                a = self.ev(n.args[0])
+                if isinstance(a, tuple) and a[0] == "field":
+                    s, acc = self.frag.subnfa(a[1])
+                    return ("nfa", s, acc)
+                raise Unsupported(f"{fi.site(n)}: expression_to_nfa of {unparse(n.args[0])}")
+            if name == "NFA" and len(n.args) == 2:
+                return ("nfa", self.ev(n.args[0]), self.ev(n.args[1]))
+            if name == "Identity" and len(n.args) == 1:
+                return ("pred", "item")
+            if name == "isinstance":
+                return ("isinstance",)
+            if isinstance(f, ast.Attribute):
+                recv = self.ev(f.value)
+                if recv == "STACK":
+                    if f.attr == "pop" and not n.args:
+                        if not self.stack:
+                            raise Unsupported(f"{fi.site(n)}: pop from an empty stack in this scenario")
+                        s, a = self.stack.pop()
+                        return ("nfa", s, a)
+                    if f.attr == "append" and len(n.args) == 1:
+                        v = self.ev(n.args[0])
+                        if isinstance(v, tuple) and v[0] == "nfa":
+                            self.stack.append((v[1], v[2]))
+                            return None
+                    raise Unsupported(f"{fi.site(n)}: stack.{f.attr}")
+                if isinstance(recv, int) and f.attr == "assign" and len(n.args) == 1:
+                    other = self.ev(n.args[0])
+                    a, b = self.frag.rep(recv), self.frag.rep(other)
+                    if a != b:
+                        self.frag.alias[a] = b     # a takes over b's (shared) edge lists
+                    return None
+                if isinstance(recv, tuple) and recv[0] == "listref" and f.attr in ("append", "extend"):
+                    v = self.ev(n.args[0])
+                    tgt = self.frag.eps if recv[1] == "epsilon_transitions" else self.frag.lab
+                    if f.attr == "append":
+                        tgt[recv[2]].append(self._edge(v, recv[1]))
+                    else:
+                        tgt[recv[2]].extend(self._edge(x, recv[1]) for x in v)
+                    return None
+            raise Unsupported(f"{fi.site(n)}: call {unparse(n)[:60]}")
+        raise Unsupported(f"{fi.site(n)}: expression {type(n).__name__} in apply()")
+
+    def _edge(self, v, kind):
+        if kind == "epsilon_transitions":
+            if not isinstance(v, int):
+                raise Unsupported("epsilon edge to a non-state")
+            return v
+        if isinstance(v, tuple) and len(v) == 2 and isinstance(v[1], int):
+            lab = v[0]
+            if isinstance(lab, tuple) and lab[0] in ("field", "pred"):
+                self.frag.labels.append("item")
+                return ("item", v[1])
+        raise Unsupported(f"transition edge {v!r}")
+
+
+def operator_fragments(prj: Project, ci: ClassInfo, stack_depth: int):
+    """All fragments of ci.apply over the data-dependent branches (2^k, k small)."""
+    fi = ci.methods.get("apply")
+    if fi is None:
+        raise AnalysisError(f"{ci.qual} defines no apply()")
+    # discover undecided ifs with a first run, then enumerate their choices
+    probe = ApplyInterp(prj, fi, {}, stack_depth)
+    probe.run()
+    ifs = probe.undecided
+    out = []
+    for choice in itertools.product([True, False], repeat=len(ifs)):
+        bc = {id(i): c for i, c in zip(ifs, choice)}
+        it = ApplyInterp(prj, fi, bc, stack_depth)
+        frag = it.run()
+        # normalise labelled edges appended through .lab lists assigned wholesale
+        for k, lst in frag.lab.items():
+            frag.lab[k] = [(e if isinstance(e, tuple) and isinstance(e[0], str) else e) for e in lst]
+        out.append((dict(zip([unparse(i.test) for i in ifs], choice)), frag))
+    return fi, out
